@@ -442,6 +442,7 @@ def run(spec, ctx):
         ctx.bulk(n_ops)
         return
     if spec["kind"] == "test-equality":
+        run_stack_depth(ctx)
         # `test` on pairs of numbers that are close but different, or equal across int/float; bare and nested; then a guarded replace
         from rt.gen import NEAR_NUMBERS
 
@@ -531,7 +532,47 @@ def finalize(m, tier):
     return {"inconclusive": inc, "coverage": {"exhaustive_subspaces": ["single operations over %d documents: %d patches" % (len(DOCS), m["counters"].get("single_operations_enumerated", 0))]}}
 
 
+def run_stack_depth(ctx):
+    """`test` against values nested from an eighth of the interpreter's recursion limit to beyond it, whose only
+    difference (if any) is at the very bottom: a refusal with RecursionError is accepted at any depth; an answer must be
+    the right one - success for the same JSON value (1 / 1.0, an object written in another order), JSONPatchTestFailure
+    for look-alikes (true / 1, 0 / false, "1" / 1, [] / {})."""
+    import sys
+
+    import jsonpath
+
+    def nest(leaf, depth, shape):
+        v = leaf
+        for i in range(depth):
+            v = [v] if shape == "arrays" or (shape == "mixed" and i % 2) else {"k": v}
+        return v
+    limit = sys.getrecursionlimit()
+    pairs = [(1, 1.0, True), ({"a": 1, "b": 2}, {"b": 2, "a": 1}, True), ("x", "x", True), (True, 1, False), (0, False, False), ("1", 1, False), ([], {}, False), (None, 0, False), ([True], [1], False)]
+    for depth in sorted({limit // 8, limit // 5, limit // 4, limit // 3, limit // 2 - 20, limit // 2, limit // 2 + 20, (2 * limit) // 3, limit - 60, limit + 100}):
+        for shape in ("arrays", "objects", "mixed"):
+            for a, b, same in pairs:
+                doc = {"v": nest(a, depth, shape)}
+                patch = jsonpath.JSONPatch().test("/v", nest(b, depth, shape))
+                o = impl.call(patch.apply, doc)
+                ctx.evaluation()
+                ctx.case(h("stack-depth", depth * 1000 // limit, shape, repr(a), repr(b)), True)
+                if not o.ok and isinstance(o.exc, RecursionError):
+                    ctx.count("deep_tests_refused_with_RecursionError")
+                    continue
+                ctx.count("deep_tests_answered")
+                passed = o.ok
+                if not o.ok and not isinstance(o.exc, jsonpath.JSONPatchTestFailure):
+                    ctx.violation("deep-test-raised:%s" % type(o.exc).__name__, {"stack_depth": True}, {"nesting": depth, "recursion_limit": limit, "shape": shape, "document_leaf": repr(a), "tested_leaf": repr(b), "error": o.desc()[:300]})
+                    return
+                if passed != same:
+                    ctx.violation("deep-test-answers-wrongly:%s" % ("passes-for-different-values" if passed else "fails-for-the-same-value"), {"stack_depth": True}, {"nesting": depth, "recursion_limit": limit, "shape": shape, "document_leaf": repr(a), "tested_leaf": repr(b), "passed": passed})
+                    return
+
+
 def replay(case, ctx):
+    if case.get("stack_depth"):
+        run_stack_depth(ctx)
+        return
     if case.get("kind") == "threads":
         from .c15 import run_threads
 
